@@ -25,7 +25,7 @@ RULE = ("simulated elections with per-contest shortfalls none / one / all differ
         "phantom MVR lowered the assorter; distinct = hash of the spec")
 REQUIRED = ["contract:CVR.make_phantoms", "accounting_checked:style", "accounting_checked:no_style", "phantoms_created",
             "zero_shortfall_after_positive_shortfall", "bounds_unspecified", "worstcase_pairs", "phantom_mvr_strictly_lower",
-            "phantom_cvr_pairs", "shortfalls_all_different", "assorter:plurality", "assorter:supermajority", "assorter:irv"]
+            "phantom_cvr_pairs", "phantom_cvr_with_votes_pairs", "shortfalls_all_different", "assorter:plurality", "assorter:supermajority", "assorter:irv"]
 ASSUMPTIONS = ["card bounds >= number of CVRs listing the contest; input lists contain no phantoms",
                "a phantom labelled pooled inside a pooled batch is scored with that batch's mean by design (C03 depends "
                "on it): the 1/2 clause is asserted for unpooled phantom CVRs"]
@@ -189,6 +189,34 @@ def run_case(es, rec):
                             rec.violation("c08.phantomcvr", f"{sc['kind']}:unpooled_phantom_cvr_not_scored_half",
                                           {"contest": cid, "assertion": name, "card": cv.id, "cvr_side_score": cvr_side})
                             return
+    # phantom CVRs with arbitrary contents ("all CVR contents"): whatever votes a phantom record carries, and whatever its
+    # pool label, it is scored 1/2 unless it is pooled AND batch means are in force
+    import random as _r
+    prng = _r.Random(len(es["cards"]) * 1009 + len(es["contests"]))
+    with np.errstate(all="ignore"):
+        for cid, con in sim.contests.items():
+            sc = es["contests"][cid]
+            for name, a in con.assertions.items():
+                means_on = a.assorter.tally_pool_means is not None
+                for _ in range(3):
+                    votes = E.gen_ballot(prng, sc)
+                    pooled = prng.random() < 0.5
+                    pc = CVR(id="phantom-1-x", votes={cid: votes}, phantom=True, pool=pooled, tally_pool=prng.choice(("zz-1", None)))
+                    if pooled and means_on:
+                        continue
+                    mv = CVR(id="phantom-1-x", votes={cid: E.gen_ballot(prng, sc)})
+                    ok, b = rec.guard(f"c08.call:overstatement_assorter:{sc['kind']}", a.overstatement_assorter, mv, pc, sim.use_style)
+                    if not ok:
+                        return
+                    A = E.ref_assort(sc, sim.desc[cid][name], mv.votes[cid])
+                    u, v = a.assorter.upper_bound, a.margin
+                    cvr_side = u * (1 - b * (2 - v / u)) + A
+                    rec.count("phantom_cvr_with_votes_pairs")
+                    if not math.isclose(cvr_side, 0.5, rel_tol=1e-9, abs_tol=1e-12):
+                        rec.violation("c08.phantomcvr", f"{sc['kind']}:phantom_cvr_with_votes_not_scored_half",
+                                      {"contest": cid, "assertion": name, "cvr_votes": votes, "pool": pooled, "means_in_force": means_on,
+                                       "cvr_side_score": cvr_side})
+                        return
     multi = sum(1 for cid, con in sim.contests.items()
                 if (con.cards or 0) > sum(1 for cd in es["cards"] if cid in cd["votes"])) >= 2
     rec.case(es, nontrivial=(multi or lowered > 0), sample=brief(es))
